@@ -186,7 +186,7 @@ pub enum SvcEvent {
     /// poll_ready answer: 0 pending, 1 ready, 2 error
     Ready { worker: usize, token: usize, inst: usize, ans: u8 },
     /// service call with the connection's peer key
-    Call { worker: usize, token: usize, inst: usize, peer: String },
+    Call { worker: usize, token: usize, inst: usize, gen: usize, peer: String },
 }
 
 #[derive(Default)]
@@ -224,6 +224,7 @@ struct SimService<Io> {
     worker: usize,
     token: usize,
     inst: usize,
+    gen: usize,
     sh: Sh,
     _p: PhantomData<fn(Io)>,
 }
@@ -295,6 +296,7 @@ impl<Io: PeerKey + 'static> Service<Io> for SimService<Io> {
             worker: self.worker,
             token: self.token,
             inst: self.inst,
+            gen: self.gen,
             peer: peer.clone(),
         });
         s.live.insert(peer.clone(), (self.worker, self.token));
@@ -310,6 +312,7 @@ impl<Io: PeerKey + 'static> Service<Io> for SimService<Io> {
 struct SimFactory<Io> {
     worker: usize,
     token: usize,
+    gen: usize,
     sh: Sh,
     _p: PhantomData<fn(Io)>,
 }
@@ -317,6 +320,7 @@ struct SimFactory<Io> {
 struct CreateFut<Io> {
     worker: usize,
     token: usize,
+    gen: usize,
     sh: Sh,
     _p: PhantomData<fn(Io)>,
 }
@@ -347,6 +351,7 @@ impl<Io> Future for CreateFut<Io> {
                     worker: self.worker,
                     token: self.token,
                     inst,
+                    gen: self.gen,
                     sh: self.sh.clone(),
                     _p: PhantomData,
                 }))
@@ -375,19 +380,21 @@ impl<Io: PeerKey + 'static> ServiceFactory<Io> for SimFactory<Io> {
         CreateFut {
             worker: self.worker,
             token: self.token,
+            gen: self.gen,
             sh: self.sh.clone(),
             _p: PhantomData,
         }
     }
 }
 
-fn make_factory<Io>(worker: usize, token: usize, sh: Sh) -> Box<dyn InternalServiceFactory>
+fn make_factory<Io>(worker: usize, token: usize, gen: usize, sh: Sh) -> Box<dyn InternalServiceFactory>
 where
     Io: FromStream + PeerKey + Send + 'static,
 {
     let f = move || SimFactory::<Io> {
         worker,
         token,
+        gen,
         sh: sh.clone(),
         _p: PhantomData,
     };
@@ -478,6 +485,7 @@ struct Env {
     clients: Vec<Client>,
     accepted: Vec<usize>,            // cids in accept order
     dispatched: Vec<(usize, usize)>, // (cid, worker idx) in dispatch order
+    dclean: Vec<bool>,               // per dispatch: no disturbance of the rotation right after it
     in_hand: Option<usize>,
     points: Vec<(String, usize)>,
     anchored: Vec<(String, usize, Act, bool)>, // kind, nth (1-based, per iteration), action, fired
@@ -524,8 +532,9 @@ pub struct Snap {
     pub accepted: Vec<usize>,
     pub dispatched: Vec<(usize, usize)>,
     pub in_hand: i64,
-    /// service-side: (cid, worker, token, instance) in call order
-    pub calls: Vec<(i64, usize, usize, usize)>,
+    /// service-side: (cid, worker, token, instance, worker generation) in call order
+    pub calls: Vec<(i64, usize, usize, usize, usize)>,
+    pub dclean: Vec<bool>,
     pub inprog: Vec<Vec<usize>>,
     pub finished: Vec<usize>,
     pub uds_path: Vec<bool>,
@@ -560,6 +569,23 @@ impl Env {
         });
     }
 
+    fn mark_last_dispatch_dirty(&mut self) {
+        if let Some(l) = self.dclean.last_mut() {
+            *l = false;
+        }
+    }
+
+    /// queued + in progress at worker i (all generations: conservative)
+    fn load(&self, i: usize) -> usize {
+        let q = self.workers[i]
+            .built
+            .as_ref()
+            .map(|b| worker::verif::queue_len(&b.fut))
+            .unwrap_or(0);
+        let live = self.sh.lock().unwrap().live.values().filter(|(w, _)| *w == i).count();
+        q + live
+    }
+
     fn cid_of_peer(&self, peer: &str) -> i64 {
         self.clients
             .iter()
@@ -568,19 +594,19 @@ impl Env {
             .unwrap_or(-1)
     }
 
-    fn factories_for(&self, worker: usize) -> Vec<Box<dyn InternalServiceFactory>> {
+    fn factories_for(&self, worker: usize, gen: usize) -> Vec<Box<dyn InternalServiceFactory>> {
         self.listeners
             .iter()
             .enumerate()
             .map(|(token, l)| match l.kind {
-                LKind::Tcp => make_factory::<actix_rt::net::TcpStream>(worker, token, self.sh.clone()),
-                LKind::Uds => make_factory::<actix_rt::net::UnixStream>(worker, token, self.sh.clone()),
+                LKind::Tcp => make_factory::<actix_rt::net::TcpStream>(worker, token, gen, self.sh.clone()),
+                LKind::Uds => make_factory::<actix_rt::net::UnixStream>(worker, token, gen, self.sh.clone()),
             })
             .collect()
     }
 
-    fn build_worker(&self, idx: usize) -> BuiltWorker {
-        let factories = self.factories_for(idx);
+    fn build_worker(&self, idx: usize, gen: usize) -> BuiltWorker {
+        let factories = self.factories_for(idx, gen);
         let wq = self.wq.clone();
         let limit = self.cfg.limit;
         let st = Duration::from_millis(self.cfg.shutdown_timeout_ms);
@@ -609,11 +635,13 @@ impl Env {
                 // the worker future (queue receiver first) goes away; connections it already called stay
                 // alive as local tasks until TearDown (= Finish of such a connection)
                 self.workers[*i].built = None;
+                self.mark_last_dispatch_dirty();
             }
             Act::Replace(i) => {
-                let mut built = self.build_worker(*i);
-                let handle = built.accept.take().unwrap();
                 let gen = self.workers[*i].gen + 1;
+                let mut built = self.build_worker(*i, gen);
+                let handle = built.accept.take().unwrap();
+                self.mark_last_dispatch_dirty();
                 self.workers[*i] = WorkerSlot {
                     built: Some(built),
                     done: false,
@@ -804,10 +832,21 @@ impl Env {
                 self.turns = 0;
                 if let Some(cid) = self.in_hand.take() {
                     self.dispatched.push((cid, arg));
+                    self.dclean.push(true);
                 }
             }
             "accepted" => {
                 self.turns = 0;
+            }
+            "inc" => {
+                // rotation disturbed right after this dispatch? (a handle marked unavailable, a worker at
+                // the limit, or not all workers in the rotation)
+                let nh = arg >> 1;
+                let any_false = arg & 1 == 1;
+                let loaded = (0..self.cfg.workers).any(|i| self.load(i) >= self.cfg.limit);
+                if any_false || nh != self.cfg.workers || loaded {
+                    self.mark_last_dispatch_dirty();
+                }
             }
             _ => {}
         }
@@ -884,6 +923,7 @@ impl Sim {
             clients: vec![],
             accepted: vec![],
             dispatched: vec![],
+            dclean: vec![],
             in_hand: None,
             points: vec![],
             anchored: vec![],
@@ -894,7 +934,7 @@ impl Sim {
         };
         let mut handles = vec![];
         for idx in 0..cfg.workers {
-            let mut built = env.build_worker(idx);
+            let mut built = env.build_worker(idx, 0);
             handles.push(built.accept.take().unwrap());
             env.workers.push(WorkerSlot {
                 built: Some(built),
@@ -1070,6 +1110,7 @@ impl Sim {
         }
         s.accepted = e.accepted.clone();
         s.dispatched = e.dispatched.clone();
+        s.dclean = e.dclean.clone();
         s.in_hand = e.in_hand.map(|c| c as i64).unwrap_or(-1);
         s.inprog = vec![vec![]; n];
         {
@@ -1079,10 +1120,11 @@ impl Sim {
                     worker,
                     token,
                     inst,
+                    gen,
                     peer,
                 } = ev
                 {
-                    s.calls.push((e.cid_of_peer(peer), *worker, *token, *inst));
+                    s.calls.push((e.cid_of_peer(peer), *worker, *token, *inst, *gen));
                 }
             }
             for (peer, (w, _)) in sh.live.iter() {
